@@ -21,17 +21,79 @@
 typedef struct {
 	sqfs_dir_iterator_t base;
 
-	struct dirent *ent;
+	/* name of the current entry, points into the names array */
+	const char *ent;
+
+	/* all entries of the directory, sorted, so the result does
+	   not depend on the order the host returns them in */
+	char **names;
+	size_t num_names;
+	size_t max_names;
+	size_t next_name;
+	bool names_loaded;
+
 	struct stat sb;
 	dev_t device;
 	int state;
 	DIR *dir;
 } unix_dir_iterator_t;
 
+static int compare_names(const void *lhs, const void *rhs)
+{
+	return strcmp(*((const char *const *)lhs), *((const char *const *)rhs));
+}
+
+static int load_names(unix_dir_iterator_t *it)
+{
+	struct dirent *ent;
+	char **new, *name;
+	size_t count;
+
+	for (;;) {
+		errno = 0;
+		ent = readdir(it->dir);
+
+		if (ent == NULL) {
+			if (errno != 0)
+				return SQFS_ERROR_IO;
+			break;
+		}
+
+		if (it->num_names == it->max_names) {
+			count = it->max_names ? it->max_names * 2 : 32;
+
+			new = realloc(it->names, count * sizeof(it->names[0]));
+			if (new == NULL)
+				return SQFS_ERROR_ALLOC;
+
+			it->names = new;
+			it->max_names = count;
+		}
+
+		name = strdup(ent->d_name);
+		if (name == NULL)
+			return SQFS_ERROR_ALLOC;
+
+		it->names[it->num_names++] = name;
+	}
+
+	if (it->num_names > 1) {
+		qsort(it->names, it->num_names, sizeof(it->names[0]),
+		      compare_names);
+	}
+
+	it->names_loaded = true;
+	return 0;
+}
+
 static void dir_destroy(sqfs_object_t *obj)
 {
 	unix_dir_iterator_t *it = (unix_dir_iterator_t *)obj;
 
+	while (it->num_names > 0)
+		free(it->names[--(it->num_names)]);
+
+	free(it->names);
 	closedir(it->dir);
 	free(it);
 }
@@ -63,7 +125,7 @@ static int dir_read_link(sqfs_dir_iterator_t *base, char **out)
 	if (str == NULL)
 		return SQFS_ERROR_ALLOC;
 
-	ret = readlinkat(dirfd(it->dir), it->ent->d_name,
+	ret = readlinkat(dirfd(it->dir), it->ent,
 			 str, (size_t)it->sb.st_size);
 	if (ret < 0) {
 		free(str);
@@ -84,26 +146,28 @@ static int dir_next(sqfs_dir_iterator_t *base, sqfs_dir_entry_t **out)
 	if (it->state != 0)
 		return it->state;
 
-	errno = 0;
-	it->ent = readdir(it->dir);
+	it->ent = NULL;
 
-	if (it->ent == NULL) {
-		if (errno != 0) {
-			it->state = SQFS_ERROR_IO;
-		} else {
-			it->state = 1;
-		}
+	if (!it->names_loaded) {
+		it->state = load_names(it);
+		if (it->state != 0)
+			return it->state;
+	}
 
+	if (it->next_name >= it->num_names) {
+		it->state = 1;
 		return it->state;
 	}
 
-	if (fstatat(dirfd(it->dir), it->ent->d_name,
+	it->ent = it->names[it->next_name++];
+
+	if (fstatat(dirfd(it->dir), it->ent,
 		    &it->sb, AT_SYMLINK_NOFOLLOW)) {
 		it->state = SQFS_ERROR_IO;
 		return it->state;
 	}
 
-	*out = sqfs_dir_entry_create(it->ent->d_name, it->sb.st_mode, 0);
+	*out = sqfs_dir_entry_create(it->ent, it->sb.st_mode, 0);
 	if ((*out) == NULL) {
 		it->state = SQFS_ERROR_ALLOC;
 		return it->state;
@@ -140,11 +204,11 @@ static int dir_open_file_ro(sqfs_dir_iterator_t *base, sqfs_istream_t **out)
 	if (it->state > 0 || it->ent == NULL)
 		return SQFS_ERROR_NO_ENTRY;
 
-	fd = openat(dirfd(it->dir), it->ent->d_name, O_RDONLY);
+	fd = openat(dirfd(it->dir), it->ent, O_RDONLY);
 	if (fd < 0)
 		return SQFS_ERROR_IO;
 
-	ret = sqfs_istream_open_handle(out, it->ent->d_name,
+	ret = sqfs_istream_open_handle(out, it->ent,
 				       fd, SQFS_FILE_OPEN_READ_ONLY);
 	if (ret != 0) {
 		int err = errno;
@@ -177,7 +241,7 @@ static int dir_open_subdir(sqfs_dir_iterator_t *base, sqfs_dir_iterator_t **out)
 	if (it->state > 0 || it->ent == NULL)
 		return SQFS_ERROR_NO_ENTRY;
 
-	fd = openat(dirfd(it->dir), it->ent->d_name, O_RDONLY | O_DIRECTORY);
+	fd = openat(dirfd(it->dir), it->ent, O_RDONLY | O_DIRECTORY);
 	if (fd < 0) {
 		if (errno == ENOTDIR)
 			return SQFS_ERROR_NOT_DIR;
